@@ -328,6 +328,26 @@ class Ctx:
         walk(None, body)
         return out
 
+    def local_callees(self, body, depth=1):
+        """Hand-written functions of the same crate called by `body` or its closures (helpers a
+        computation may have been factored into), to `depth` levels."""
+        out, seen, frontier = [], {body.key}, [body]
+        for _ in range(depth):
+            nxt = []
+            for b in frontier:
+                for bb in [b] + self.closures_of(b):
+                    for blk, t in bb.calls():
+                        c = mir.callee_of(t)
+                        if not c or c in seen:
+                            continue
+                        lst = self.bodies(body.crate).get(c)
+                        if lst and lst[0].kind in ("Fn", "AssocFn") and not lst[0].derived:
+                            seen.add(c)
+                            out.append(lst[0])
+                            nxt.append(lst[0])
+            frontier = nxt
+        return out
+
     def find_aggregates(self, body, adt_rx, variant=None):
         rx = re.compile(adt_rx)
         out = []
